@@ -1150,6 +1150,10 @@ func (pk *Packet) AuthDecode(buf []byte) error {
 		return fmt.Errorf("%s: %w", err, ErrMalformedReasonCode)
 	}
 
+	if len(buf) == 1 {
+		return nil // reason code only; the property length may be omitted
+	}
+
 	_, err = pk.Properties.Decode(pk.FixedHeader.Type, bytes.NewBuffer(buf[offset:]))
 	if err != nil {
 		return fmt.Errorf("%s: %w", err, ErrMalformedProperties)
